@@ -142,6 +142,15 @@ def gen_stream(rng):
                     features.add("open_style")
                 parts.append(pre + text + suf)
                 features.add("sgr")
+            elif r < 0.84:
+                # a hyperlink whose text is partly coloured: the SGR reset inside the link ends the colour, not the link
+                # (what `ls --hyperlink --color` and compilers write)
+                rec = G.rand_record(rng, p_link=0.0, colors=colors, p_fg=0.9)
+                pre, suf = encode(rec)
+                url = G.rand_url(rng)
+                tail = S.free_string(rng, 6, w, space=0.1, min_len=1)
+                parts.append("\x1b]8;;%s\x1b\\" % url + pre + text + suf + tail + "\x1b]8;;\x1b\\")
+                features.add("reset_inside_link")
             elif r < 0.90:
                 parts.append(rng.choice(MARKUPISH))
                 features.add("markupish")
@@ -230,6 +239,8 @@ def wl_fileproxy(ctx, rng, case_no):
         tag += ":non-sgr-csi-in-stream"
     if "crlf" in features:
         tag += ":crlf-line-endings"
+    if "reset_inside_link" in features:
+        tag += ":sgr-reset-inside-a-hyperlink"
     if got.unexpected:
         ctx.violation("unexpected-sequence-in-output" + tag, dict(wit, unexpected=got.unexpected[:3]))
     elif got.text != want.text:
